@@ -83,3 +83,16 @@ Proof. repeat split; reflexivity. Qed.
 From SymfcG Require Import ShapesSolvers ShapesPerm ShapesSumRule.
 Theorem c11_recorded_sources2_in_force : ShapesSolvers_as_recorded = true /\ ShapesPerm_as_recorded = true /\ ShapesSumRule_as_recorded = true.
 Proof. repeat split; reflexivity. Qed.
+
+(** Auxiliary code on this property's path is the recorded source (the batch-size rule of the second-order sum-rule projector; the unique-index form of the third-order permutation projector):
+    whole-function match, regenerated on every run. *)
+From SymfcG Require Import ShapesAuxBatch ShapesAuxPerm3.
+Theorem c11_recorded_sources3_in_force : ShapesAuxBatch_as_recorded = true /\ ShapesAuxPerm3_as_recorded = true.
+Proof. repeat split; reflexivity. Qed.
+
+(** What the modules on this property's path consist of besides the function bodies is the recorded one: every signature with its
+    defaults and keyword-only arguments, decorators, class bases, method lists and module-level statements (imports, constants) --
+    regenerated on every run. *)
+From SymfcG Require Import SkelSolvers SkelMat SkelPerm.
+Theorem c11_module_skeletons_in_force : SkelSolvers_as_recorded = true /\ SkelMat_as_recorded = true /\ SkelPerm_as_recorded = true.
+Proof. repeat split; reflexivity. Qed.
